@@ -73,7 +73,9 @@ func (s *SimpleAuthCtx) check(streamName string, urlParam string) error {
 	v = strings.ToLower(v)
 
 	// 注意，只有DangerousLalSecret配置了值，才验证参数是否和DangerousLalSecret相等
-	if len(s.config.DangerousLalSecret) != 0 && v == s.config.DangerousLalSecret {
+	// v was lower-cased above, so the configured value has to be lower-cased as well:
+	// otherwise a dangerous_lal_secret containing an upper-case letter can never match
+	if len(s.config.DangerousLalSecret) != 0 && v == strings.ToLower(s.config.DangerousLalSecret) {
 		return nil
 	}
 
